@@ -642,6 +642,7 @@ int check_main(Config cfg) {
     ChildResult rf = run_in_child(m, "", 300, errfile);
     Verdict vf = verdict_of(rf, cfg.prop);
     if (!vf.bad || vf.oracle != v1.oracle) { m = p; vf = v1; }
+    if (heap_is_seeded()) m.knobs["seeded_heap"] = 1;   // ./check replay then takes the build with the seeded allocator
     Json rj = Json::obj();
     rj.set("property", vf.prop).set("oracle", vf.oracle).set("message", vf.msg).set("event_log_hash", hex64(vf.hash)).set("found_by", "seed " + std::to_string(cfg.seed) + " run " + std::to_string(c.run) + " sub " + std::to_string(c.sub) + " tier " + cfg.tier)
         .set("minimisation", "ops " + std::to_string(before_ops) + " -> " + std::to_string(m.ops.size()) + ", text " + std::to_string(before_text) + " -> " + std::to_string(after_text) + " bytes, " + std::to_string(sh.evals) + " re-runs")
@@ -660,6 +661,29 @@ int check_main(Config cfg) {
       fprintf(stderr, "  oracle %s: %s\n  %s\n", vf.oracle.c_str(), vf.msg.c_str(), rj.str("minimisation").c_str());
     }
     fflush(stdout);
+  }
+
+  // ------------------------------------------------------------ C18 second stage: the same simulation with the allocator behind a seam
+  long long heap_runs = 0; int heap_violations = 0;
+  if (cfg.prop == "C18" && !heap_is_seeded() && access("build/plain/theosim", X_OK) == 0 && !getenv("VERIF_NO_HEAP_STAGE")) {
+    bool th = cfg.tier == "thorough";
+    std::string ev2 = cfg.logs + "/C18.seeded_heap.json", out2 = cfg.logs + "/C18.seeded_heap.out";
+    std::string cmd = "build/plain/theosim check C18 " + cfg.tier + " --seed " + std::to_string(cfg.seed) + " --runs " + std::to_string(th ? 40000 : 1600) + " --budget " + std::to_string(th ? 240 : 15) +
+                      " --workers " + std::to_string(cfg.workers) + " --replays " + cfg.replays + " --known " + cfg.known + " --logs " + cfg.logs + "/plain --evidence " + ev2 + " > " + out2 + " 2>" + cfg.logs + "/C18.seeded_heap.err";
+    int rc = system(("mkdir -p " + cfg.logs + "/plain && " + cmd).c_str());
+    int code = WIFEXITED(rc) ? WEXITSTATUS(rc) : 2;
+    std::string o2; try { o2 = read_file(out2); } catch (...) {}
+    size_t pos = 0;
+    while (pos < o2.size()) {
+      size_t e = o2.find('\n', pos); if (e == std::string::npos) e = o2.size();
+      std::string line = o2.substr(pos, e - pos); pos = e + 1;
+      if (line.rfind("VIOLATION ", 0) == 0) { printf("%s\n", line.c_str()); violations++; heap_violations++; }
+      else if (line.rfind("KNOWN-FINDING:", 0) == 0) { printf("%s\n", line.c_str()); known_hits++; known_lines.push_back(line); }
+    }
+    fflush(stdout);
+    try { Json e2 = Json::parse(read_file(ev2)); heap_runs = e2.at("coverage").num("evaluations"); } catch (...) {}
+    if (code == 2 || (code == 1 && heap_violations == 0)) { fprintf(stderr, "[check C18] the seeded-allocator stage ended with an infrastructure error (see %s)\n", (cfg.logs + "/C18.seeded_heap.err").c_str()); exit_code = 2; }
+    fprintf(stderr, "[check C18] seeded-allocator stage (build without sanitizers, operator new behind a seeded seam): %lld runs, %d violations\n", heap_runs, heap_violations);
   }
 
   // ------------------------------------------------------------ C18 supplementary stage: free-running threads under TSan
@@ -755,6 +779,7 @@ int check_main(Config cfg) {
   for (const char *s : {"Compiler/src/lex.yy.c", "scan.cpp", "macro.cpp", "ParserGenerator/*", "parse.cpp", "gen.cpp", "compiler.cpp", "VM/src/vm.cpp", "program.cpp", "instr.cpp"}) real.push(s);
   Json stub = Json::arr();
   for (const char *s : {"file store (std::map handed to Theo::compile - the library's own interface)", "IDE / debugger client (scripted op list)", "caller-thread scheduler (W3)", "CLI/cli.cpp is not run"}) stub.push(s);
+  if (cfg.prop == "C18" && !heap_is_seeded()) cov.set("seeded_heap_stage", "the same W3 simulation in a build without sanitizers in which operator new is served by an arena whose placement decisions follow a PRNG seeded per task and phase (alone / interleaved / again / other order): " + std::to_string(heap_runs) + " runs, " + std::to_string(heap_violations) + " violations");
   if (cfg.prop == "C18") cov.set("tsan_stage", cfg.tier == "thorough" ? "supplementary runtime monitoring outside the deterministic core: " + std::to_string(tsan_sets) + " task sets on free-running threads in the -fsanitize=thread build, " + std::to_string(tsan_reports) + " confirmed reports" : std::string("not run in the quick tier"));
   cov.set("real_components", real).set("stub_components", stub).set("foreign_crashes", foreign_crashes).set("known_findings", known_hits).set("exhaustive", false);
   ev.set("coverage", cov);
